@@ -16,6 +16,9 @@ fn run(db: &mut Database, sql: &str) {
         Statement::Delete(s) => vibesql_executor::DeleteExecutor::execute(&s, db).map(|n| format!("{} rows", n)).map_err(|e| format!("{:?}", e)),
         Statement::CreateTable(s) => vibesql_executor::CreateTableExecutor::execute(&s, db).map(|m| format!("{}", m)).map_err(|e| format!("{:?}", e)),
         Statement::CreateIndex(s) => vibesql_executor::IndexExecutor::execute(&s, db).map(|m| format!("{}", m)).map_err(|e| format!("{:?}", e)),
+        Statement::CreateTrigger(s) => vibesql_executor::TriggerExecutor::create_trigger(db, &s).map_err(|e| format!("{:?}", e)),
+        Statement::TruncateTable(s) => vibesql_executor::TruncateTableExecutor::execute(&s, db).map(|n| format!("{} rows", n)).map_err(|e| format!("{:?}", e)),
+        Statement::AlterTable(s) => vibesql_executor::AlterTableExecutor::execute(&s, db).map(|m| format!("{}", m)).map_err(|e| format!("{:?}", e)),
         Statement::BeginTransaction(_) => db.begin_transaction().map(|_| "BEGIN".to_string()).map_err(|e| format!("{:?}", e)),
         Statement::Commit(_) => db.commit_transaction().map(|_| "COMMIT".to_string()).map_err(|e| format!("{:?}", e)),
         Statement::Rollback(_) => db.rollback_transaction().map(|_| "ROLLBACK".to_string()).map_err(|e| format!("{:?}", e)),
